@@ -225,6 +225,20 @@ def run(world, rep, tier, only=None):
         ("ext2fs_rb_private", "rcursor_next") in T.fields(n.ev.get("rhs") or {}) for n in tb.events("S")),
         "rb_test_bit reads bp->rcursor_next")
 
+    # ------------------------------------------------------------------ C16.d set_range assigns in both backends
+    # the bit array copies the bytes over the range; the tree must drop what the range held before inserting
+    ba = prog.fn("ba_set_bmap_range", "lib/ext2fs/blkmap64_ba.c")
+    rbs = prog.fn("rb_set_bmap_range", RB)
+    cp = [c for c in calls_to(ba, "memcpy") if "bitarray" in T.field_names(arg(c, 0) or {})]
+    rep.ob("C16.d", site(ba, "range bytes are copied over the array"), bool(cp), "memcpy(bp->bitarray + …, in, …)")
+    ins = calls_to(rbs, "rb_insert_extent")
+    rem = [c for c in calls_to(rbs, "rb_remove_extent") if T.path(arg(c, 1)) == "num" or "num" in T.vars_in(arg(c, 1) or {})]
+    rep.floor("C16.d insertions in rb_set_bmap_range", len(ins), 1)
+    for i, c in enumerate(ins):
+        rep.ob("C16.d", site(rbs, "old content of the range dropped before runs are inserted#%d" % i),
+               bool(rem) and rbs.dominated_by(c, rem) and all(not control_lits(rbs, r_) for r_ in rem),
+               "an unconditional rb_remove_extent(start, num) dominates rb_insert_extent")
+
     # ------------------------------------------------------------------ C16.c inclusive ends
     # `end` and `real_end` of a bitmap are the numbers of its *last* bits.  A loop that visits the bits one by one
     # upwards and is bounded by one of them (directly or through locals, e.g. min(new_end, real_end)) therefore
